@@ -5,11 +5,15 @@ rows=[]
 for f in sorted(glob.glob('/verif/seeded/*/meta.json')):
     m=json.load(open(f))
     rows.append(m)
-n=len(rows); direct=sum(1 for m in rows if m['detected']=='yes'); after=sum(1 for m in rows if m['detected']=='after-strengthening'); missed=n-direct-after
+n=len(rows); direct=sum(1 for m in rows if m['detected']=='yes'); after=sum(1 for m in rows if m['detected']=='after-strengthening'); other=sum(1 for m in rows if m['detected']=='by-another-check'); missed=n-direct-after-other
 out=[]
 out.append("## 10. Deliberately broken variants (`/verif/seeded/`) and which checks catch them\n")
 out.append(f"{n} changes, each written by a fresh sub-agent that saw only the text of one property and its own scratch worktree of `/repo` (nothing from `/verif`). Each was kept only after I had confirmed, in the agent's worktree, that it compiles, that the demonstration fails with it and passes without it (`scripts/seeded_take.sh`), and that the touched packages' existing tests pass. Each directory holds `patch.diff`, `demo/` (the demonstration), `meta.json` (what it needs in order to manifest, what was run) and, when caught, the replay file the check produced. The checks were run with `scripts/seeded_check.sh <id> <Cxx> --tier quick` (patch applied to a scratch worktree while background runs were using `/repo`; `--in-repo` applies it to `/repo` itself and undoes it afterwards).\n")
-out.append(f"Result: **{direct} caught by the check as it stood, {after} caught after the check was strengthened, {missed} not caught.** Every miss exposed a blind spot of the same kind, and the strengthening is general, not tailored to the patch:\n")
+out.append(f"Result: **{direct} caught by the check of the property they were written against, as it stood; {other} caught, as they stood, by the check of another property that the change breaks as well (the property named in the agent's brief is not always the one a change violates most directly); {after} caught after the check was strengthened; {missed} not caught.** Every miss exposed a blind spot, and the strengthening is general, not tailored to the patch:\n")
+for m in rows:
+    if m['detected']=='by-another-check':
+        out.append(f"* **{m['id']}** — {m['what_was_run']}")
+out.append("")
 for m in rows:
     if m['detected']=='after-strengthening':
         w=m['what_was_run']
@@ -39,4 +43,4 @@ if a in s:
 else:
     s=s.rstrip()+"\n\n\n"+a+"\n"+text+"\n"+b+"\n"
 open(p,'w').write(s)
-print(n,direct,after,missed)
+print(n,direct,other,after,missed)
